@@ -43,6 +43,23 @@ def moduleJson (p : PModule) : Json :=
 
 def handle (op : String) (j : Json) : Except String Json := do
   match op with
+  | "design" =>
+    let hs ← (← getArr j "modules").toList.mapM parseSource
+    let exts ← (← getArr j "exts").toList.mapM fun e => do
+      let sigs ← (← getArr e "signals").toList.mapM fun s => do
+        let a ← s.getArr?
+        pure ((← (a[0]?.getD Json.null).getStr?), (← (a[1]?.getD Json.null).getNat?))
+      let ports ← (← getArr e "ports").toList.mapM fun s => do
+        let a ← s.getArr?
+        pure ((← (a[0]?.getD Json.null).getStr?), (← (a[1]?.getD Json.null).getStr?))
+      pure (⟨← getStr e "domain", ← getStr e "name", sigs, ports⟩ : PExt)
+    let pf := match j.getObjVal? "ports_first" with | .ok (.bool b) => b | _ => false
+    let fuel := (hs.map fuelOf).foldl max 8
+    match pipelineDesign fuel exts hs [] with
+    | .error (.reject m) => pure (Json.mkObj [("error", m)])
+    | .ok mods =>
+      let shown := (mods.zip hs).map fun (p, h) => moduleJson (if pf then { p with signals := sigListPF h } else p)
+      pure (Json.mkObj [("ok", Json.arr shown.toArray), ("problems", toJson (problemsFrom ⟨mods, exts⟩ [] mods))])
   | "pipeline" =>
     let h ← parseSource (← j.getObjVal? "module")
     let table ← (← getArr j "ctx").toList.mapM fun e => do
